@@ -147,6 +147,10 @@ inductive Ex
   | eye (x : String)
   /-- `np.ones((x,))` for a scalar name that holds the dimension -/
   | ones1 (x : String)
+  /-- `np.outer(a, b)` of two vectors -/
+  | outer (a b : Ex)
+  /-- `np.tile(a, (x, 1))` for a vector and a scalar name that holds the dimension: every row is `a` -/
+  | tileRows (a : Ex) (x : String)
   deriving DecidableEq, Repr
 
 inductive Stmt
@@ -237,6 +241,12 @@ def eval (cb : Rat → Rat) (E : Env n) : Ex → Val n
   | .ones1 x => match E x with
     | some (.sc (.num q)) => if q = n then .vec (Vector.ofFn fun _ => .num 1) else .err
     | _ => .err
+  | .outer a b => match eval cb E a, eval cb E b with
+    | .vec u, .vec v => .mat (AMat.ofFn fun i j => V.mul u[i] v[j])
+    | _, _ => .err
+  | .tileRows a x => match eval cb E a, E x with
+    | .vec v, some (.sc (.num q)) => if q = n then .mat (AMat.ofFn fun _ j => v[j]) else .err
+    | _, _ => .err
 
 /-- one cell of `v[np.where(c)] = s` -/
 def maskCell (m s old : V) : V :=
